@@ -243,7 +243,14 @@ def run_job(job):
     if job['kind'] == 'overrun-first':
         m0 = A.make(*[tuple(i) for i in job['items']][0])
         body_end = m0['expect']['msg_len']
-        for cuts in [[]] + [[c] for c in range(1, body_end - 1)]:
+        # the client is idle between the two requests (pause_between), so the surplus has
+        # arrived by the time the second request is written, wherever the stream was cut -
+        # also exactly at the end of the body and inside the surplus
+        spec = dict(spec, pause_between=True)
+        n0 = len(streams[0])
+        plans = [[]] + [[c] for c in range(1, n0)] + \
+            [[body_end, d] for d in range(body_end + 1, n0)] + [list(range(1, n0))]
+        for cuts in plans:
             plan = dict(cuts=cuts)
             obs, _ = httpharn.run_http(spec, plan)
             res['evaluations'] += 1
